@@ -120,9 +120,17 @@ void oracle_c06_retry(World &w, const History &h)
     if (kv.second.size() > 1) w.W("c06_retransmission");
     if ((long)kv.second.size() == (long)nsrv * w.cfg->tries) w.W("c06_budget_exhausted");
   }
-  bool advanced = false;
-  for (auto &e : h)
-    if (e.k == EV_ADVANCE) advanced = true;
+  // an EV_ADVANCE moves the clock without letting the application process timers: a gap that spans one says nothing
+  // about the timeout the library chose
+  std::vector<int> adv_at;
+  for (size_t i = 0; i < h.size(); i++)
+    if (h[i].k == EV_ADVANCE) adv_at.push_back((int)i);
+  auto spans_advance = [&](const Transmission &a, const Transmission &b) {
+    int ea = a.ev_index < 0 ? (int)h.size() : a.ev_index, eb = b.ev_index < 0 ? (int)h.size() : b.ev_index;
+    for (int x : adv_at)
+      if (x > ea && x <= eb) return true;
+    return false;
+  };
   // accepted samples per server (a learned timeout needs three)
   int samples[8] = { 0 };
   for (auto &p : w.packets)
@@ -139,7 +147,7 @@ void oracle_c06_retry(World &w, const History &h)
       int64_t gap_ms = (t2.t_us - t1.t_us) / 1000;
       if (gap_ms < lower_ms)
         w.violate("C06:timeout:shorter-than-base", fmt("query id %u was re-sent after only %lld ms; configured base timeout %d ms, cap %lld ms", kv.first, (long long)gap_ms, w.cfg->timeout_ms, (long long)cap_ms));
-      if (w.cfg->maxtimeout_ms > 0 && !advanced && gap_ms > w.cfg->maxtimeout_ms)
+      if (w.cfg->maxtimeout_ms > 0 && !spans_advance(t1, t2) && gap_ms > w.cfg->maxtimeout_ms)
         w.violate("C06:timeout:longer-than-maximum", fmt("query id %u waited %lld ms for a retry; configured maximum is %d ms", kv.first, (long long)gap_ms, w.cfg->maxtimeout_ms));
       w.W("c06_gap_checked");
     }
